@@ -30,7 +30,10 @@ def minkowski(sim, real, p=2, weights=None, filters=None):
         if filters is not None and filters[i] is not None:
             members = [np.asarray(filters[i](m)) for m in members]
         m = [mean([float(mm[t]) for mm in members]) for t in range(len(members[0]))]
-        dist = math.fsum(abs(a - float(b)) ** p for a, b in zip(m, real[:, i])) ** (1.0 / p)
+        if p == float("inf"):
+            dist = max(abs(a - float(b)) for a, b in zip(m, real[:, i]))        # the order-infinity (Chebyshev) distance, the limit of the p-distances
+        else:
+            dist = math.fsum(abs(a - float(b)) ** p for a, b in zip(m, real[:, i])) ** (1.0 / p)
         tot += dist * w[i]
     return tot
 
